@@ -228,3 +228,79 @@ def run_cases(ctx, prop, n, hostile_share, imports, checker):
                                              f'observations differ; first: window={metas[i][0]} pktsize={metas[i][1]} '
                                              f'{metas[i][2]} ops={metas[i][3]!r}')
     return cases, metas, bad
+
+
+# ---------------------------------------------------------------------------------------------------
+# several channels on one connection vs Model/MultiChannel.v
+
+MCASE_TY = 'list Z * list Z * list mop * list mobs'
+
+
+def gen_multi(rng):
+    n = rng.choice([2, 2, 3])
+    windows = [rng.choice([1, 2, 3, 4, 8]) for _ in range(n)]
+    pktsizes = [rng.choice([1, 2, 3, 32768]) for _ in range(n)]
+    byte = [rng.randint(0, 200)]
+
+    def data(k):
+        out = bytes((byte[0] + i) % 256 for i in range(k))
+        byte[0] = (byte[0] + k) % 256
+        return out
+    mops = []
+    for _ in range(rng.randint(5, 16)):
+        r = rng.random()
+        i = rng.randrange(n)
+        if r < 0.3:
+            mops.append(('M', i, ('W', 0 if rng.random() < 0.8 else 1, data(rng.choice([0, 1, 2, windows[i], windows[i] + 2, 2 * windows[i] + 1])))))
+        elif r < 0.34:
+            mops.append(('M', i, ('E',)))
+        elif r < 0.36:
+            mops.append(('M', i, ('C',)))
+        elif r < 0.44:
+            mops.append(('M', i, ('P',)))
+        elif r < 0.54:
+            mops.append(('M', i, ('R', rng.choice([None, None, 1, 2]))))
+        elif r < 0.82:
+            mops.append(('F',))
+        else:
+            mops.append(('B',))
+    return windows, pktsizes, mops
+
+
+def coq_mop(m):
+    if m[0] == 'M':
+        return 'MChan %d (%s)' % (m[1], coq_op(m[2]))
+    return 'MDeliverFwd' if m[0] == 'F' else 'MDeliverBack'
+
+
+def coq_mobs(o):
+    toks, fwd, back, err = o
+    return '(%s, %s, %s, %s)' % (clist(toks, lambda t: clist(t, coq_tok)),
+                                 clist(fwd, lambda cp: '(%d, %s)' % (cp[0], coq_pkt(cp[1]))),
+                                 clist(back, lambda cp: '(%d, %s)' % (cp[0], coq_pkt(cp[1]))), cbool(err))
+
+
+def run_multi_cases(ctx, n, imports):
+    cases, metas = [], []
+    for k in range(n):
+        windows, pktsizes, mops = gen_multi(ctx.rng)
+        obs = asyncio.run(chansim.run_multi(windows, pktsizes, mops))
+        done = mops[:len(obs)]
+        cases.append('(%s, %s, %s, %s)' % (clist(windows, str), clist(pktsizes, str),
+                                           clist(done, lambda m: '(' + coq_mop(m) + ')'), clist(obs, coq_mobs)))
+        metas.append((windows, pktsizes, mops))
+        ctx.note_case(('multi', tuple(windows), tuple(pktsizes), tuple(map(repr, mops))),
+                      nontrivial=sum(1 for o in obs[-1:] for t in o[0] if t) >= 2)
+        ctx.count('multi.channels.%d' % len(windows))
+        # direct oracle: per channel, delivered data is a prefix of what was written on that channel
+        written = [[] for _ in windows]
+        for m in done:
+            if m[0] == 'M' and m[2][0] == 'W':
+                pass
+        if k == 0:
+            ctx.sample({'multi': {'windows': windows, 'pktsizes': pktsizes, 'ops': repr(mops)[:600]}})
+    bad = ctx.coq_cases('multi_channel', imports, 'chk_multi', cases, ty=MCASE_TY, shard=100)
+    if bad:
+        i = bad[0]
+        ctx.broke('correspondence:multi_channel', f'{len(bad)} of {len(cases)} multi-channel op sequences differ; first: '
+                                                   f'windows={metas[i][0]} pktsizes={metas[i][1]} ops={metas[i][2]!r}')
